@@ -92,7 +92,7 @@ PROPS = {
     },
     "C17": {
         "lean": ["Stackage.Props.C17"],
-        "streams": [{"name": "condhist", "quick": 1500, "thorough": 30000}, {"name": "initonly", "quick": 1500, "thorough": 30000}, {"name": "inert", "quick": 4000, "thorough": 80000}, {"name": "closures", "quick": 1500, "thorough": 30000},
+        "streams": [{"name": "freepol", "quick": 600, "thorough": 12000}, {"name": "condhist", "quick": 1500, "thorough": 30000}, {"name": "initonly", "quick": 1500, "thorough": 30000}, {"name": "inert", "quick": 4000, "thorough": 80000}, {"name": "closures", "quick": 1500, "thorough": 30000},
                     {"name": "resets", "quick": 2000, "thorough": 40000}],
         "rule": "every exported method of Stack and Condition (reflection) x generated arguments x receiver states {zero value, freed}; the result must be the zero result of the "
                 "Lean table and the receiver must stay uninitialised; sequences of 1-4 calls. resets: any configuration (kind, capacity, options, texts, policies) x a history "
